@@ -255,6 +255,23 @@ def _judge_cache(ctx: Ctx, f: FunctionInfo, name: str) -> Tuple[str, str]:
             par_is_attr_base = any(isinstance(a, ast.Attribute) and a.value is n for a in ast.walk(key))
             if not par_is_attr_base:
                 whole.add(n.id)
+    # a whole argument as the key: compared by == / hash.  An object of a class of this package that defines neither __eq__ nor __hash__ (and is not
+    # a record) is compared by identity, and its contents can change while it stays the same key
+    for q in sorted(whole):
+        ann = next((a.annotation for a in f.node.args.posonlyargs + f.node.args.args + f.node.args.kwonlyargs if a.arg == q), None)
+        tname = ann.id if isinstance(ann, ast.Name) else (ann.value if isinstance(ann, ast.Constant) and isinstance(ann.value, str) else None)
+        if tname:
+            cands = [c for c in ctx.p.nontest_classes() if c.name == tname]
+            if len(cands) == 1:
+                ci = cands[0]
+                members = set()
+                for c in ctx.p.mro(ci):
+                    members |= set(getattr(c, "methods", {}) or {})
+                    if not hasattr(c, "methods"):
+                        members |= {"__eq__", "__hash__"}  # a stdlib base (tuple, Fraction, OrderedDict ..) brings value comparison
+                if "__eq__" not in {m.split("@")[0] for m in members}:
+                    return "bad", (f"the cache is keyed by the argument '{q}' itself: a {tname} object is compared by identity (the class defines no __eq__ / __hash__) and can be "
+                                   f"changed in place, so a later call with the same object is answered from what its contents were earlier")
     reads = _attr_reads(f, roots, ctx)
     reads = {r for r in reads if r.split(".")[0] not in whole and r.split(".")[0] != (f.param_names()[0] if f.cls is not None else "")}
     # attributes that are methods of the root's class are not data
